@@ -200,6 +200,15 @@ type Spec struct {
 	RunOne      func(r *Run)
 	// Extra is called by the coordinator to add engine-specific coverage keys.
 	Extra func(counters map[string]int64, cov map[string]interface{})
+	// OwnHook: the engine installs its own yield hook (the scheduler); the driver's
+	// step-budget hook is not installed.
+	OwnHook bool
+	// Isolated: re-executions of a failing tape (minimisation, final trace, replay check)
+	// run in a fresh process each. Needed where an oracle is process-global: the race
+	// detector reports one racing stack pair only once per process.
+	Isolated bool
+	// Finish is called by each worker after its last run; it may add counters.
+	Finish func(counters map[string]int64)
 }
 
 type replayFile struct {
@@ -295,6 +304,44 @@ func execute(s *Spec, t *tape.Tape, tier string, tracing bool) (res result) {
 	return
 }
 
+type isoResult struct {
+	Fail  *Failure `json:"fail"`
+	Rec   []uint64 `json:"rec"`
+	Obs   uint64   `json:"obs"`
+	Trace []string `json:"trace"`
+	Nontr bool     `json:"nontr"`
+}
+
+// executeIsolated runs one tape in a fresh process of this binary.
+func executeIsolated(s *Spec, tp []uint64, tier string) result {
+	dir, err := os.MkdirTemp("", "iso-")
+	if err != nil {
+		fmt.Fprintln(os.Stderr, "isolated execution:", err)
+		os.Exit(2)
+	}
+	defer os.RemoveAll(dir)
+	in, out := filepath.Join(dir, "tape.json"), filepath.Join(dir, "out.json")
+	if tp == nil {
+		tp = []uint64{}
+	}
+	b, _ := json.Marshal(tp)
+	os.WriteFile(in, b, 0o644)
+	c := exec.Command(os.Args[0], "-exectape", in, "-execout", out, "-tier", tier)
+	c.Stderr = os.Stderr
+	c.Env = os.Environ()
+	if err := c.Run(); err != nil {
+		fmt.Fprintln(os.Stderr, "isolated execution failed:", err)
+		os.Exit(2)
+	}
+	ob, err := os.ReadFile(out)
+	var ir isoResult
+	if err != nil || json.Unmarshal(ob, &ir) != nil {
+		fmt.Fprintln(os.Stderr, "isolated execution: no result")
+		os.Exit(2)
+	}
+	return result{fail: ir.Fail, rec: ir.Rec, obs: ir.Obs, trace: ir.Trace, nontr: ir.Nontr}
+}
+
 func loadKnown(path, prop string) []known {
 	var all []known
 	b, err := os.ReadFile(path)
@@ -335,14 +382,14 @@ func traceHash(tr []string, obs uint64) string {
 
 // shrink minimises a failing tape while the same class persists and the failure is
 // not a listed known finding.
-func shrink(s *Spec, tier string, orig []uint64, class string, ks []known, maxAttempts int, deadline time.Time) ([]uint64, int) {
+func shrink(run func(tp []uint64, tracing bool) result, orig []uint64, class string, ks []known, maxAttempts int, deadline time.Time) ([]uint64, int) {
 	attempts := 0
 	try := func(c []uint64) ([]uint64, bool) {
 		if attempts >= maxAttempts || time.Now().After(deadline) {
 			return nil, false
 		}
 		attempts++
-		res := execute(s, tape.NewReplay(c), tier, false)
+		res := run(c, false)
 		if res.fail != nil && res.fail.Class == class && isKnown(ks, res.fail) == nil {
 			rec := res.rec
 			// drop trailing zeros: a replay yields zeros past the end anyway
@@ -444,6 +491,8 @@ func Main(s *Spec) {
 	eventlog := flag.Bool("eventlog", false, "internal: record per-run event log (determinism self-test)")
 	eventOut := flag.String("eventout", "", "write merged event log here")
 	oneRun := flag.Int("run", -1, "execute only this run number, with trace")
+	execTape := flag.String("exectape", "", "internal: execute the tape in this file (isolated re-execution)")
+	execOut := flag.String("execout", "", "internal: result file of -exectape")
 	flag.Parse()
 	if v := os.Getenv("VERIF_SEED"); v != "" && !isFlagSet("seed") {
 		var x uint64
@@ -451,9 +500,28 @@ func Main(s *Spec) {
 			*seed = x
 		}
 	}
-	InstallBudgetHook()
+	if !s.OwnHook {
+		InstallBudgetHook()
+	}
 	ks := loadKnown(*knownPath, s.Property)
 
+	if *execTape != "" {
+		b, err := os.ReadFile(*execTape)
+		var tp []uint64
+		if err != nil || json.Unmarshal(b, &tp) != nil {
+			fmt.Fprintln(os.Stderr, "exectape: cannot read tape")
+			os.Exit(2)
+		}
+		if s.Setup != nil {
+			s.Setup(*tier)
+		}
+		res := execute(s, tape.NewReplay(tp), *tier, true)
+		ob, _ := json.Marshal(isoResult{Fail: res.fail, Rec: res.rec, Obs: res.obs, Trace: res.trace, Nontr: res.nontr})
+		if os.WriteFile(*execOut, ob, 0o644) != nil {
+			os.Exit(2)
+		}
+		os.Exit(0)
+	}
 	if *replay != "" {
 		os.Exit(doReplay(s, *replay, ks))
 	}
@@ -553,12 +621,18 @@ func runWorker(s *Spec, tier string, seed uint64, wi, wn int, plan Plan, ks []kn
 			continue
 		}
 		// a violation: minimise, write the replay file, stop this worker
-		shr, attempts := shrink(s, tier, res.rec, res.fail.Class, ks, 3000, time.Now().Add(90*time.Second))
-		fin := execute(s, tape.NewReplay(shr), tier, true)
+		rerun := func(tp []uint64, tracing bool) result { return execute(s, tape.NewReplay(tp), tier, tracing) }
+		maxAtt := 3000
+		if s.Isolated {
+			rerun = func(tp []uint64, tracing bool) result { return executeIsolated(s, tp, tier) }
+			maxAtt = 120
+		}
+		shr, attempts := shrink(rerun, res.rec, res.fail.Class, ks, maxAtt, time.Now().Add(60*time.Second))
+		fin := rerun(shr, true)
 		if fin.fail == nil || fin.fail.Class != res.fail.Class {
 			// should not happen (shrink only accepts same-class failures); fall back
 			shr = res.rec
-			fin = execute(s, tape.NewReplay(shr), tier, true)
+			fin = rerun(shr, true)
 		}
 		if fin.fail == nil {
 			fmt.Fprintf(os.Stderr, "NONDETERMINISM: run %d failed (%s) but its recorded tape does not fail on replay\n", run, res.fail.Class)
@@ -575,6 +649,9 @@ func runWorker(s *Spec, tier string, seed uint64, wi, wn int, plan Plan, ks []kn
 		os.WriteFile(path, b, 0o644)
 		wo.Violations = append(wo.Violations, violation{Class: fin.fail.Class, Key: fin.fail.Key, Msg: fin.fail.Msg, Replay: path, Run: run})
 		break
+	}
+	if s.Finish != nil {
+		s.Finish(wo.Counters)
 	}
 	wo.Steps = TotalSteps
 	b, _ := json.Marshal(wo)
